@@ -2,11 +2,12 @@
 (* NSX-T manager: gateway policies, groups and services with the REST calls the tool emits. *)
 (* pol  : policy id -> (rule id -> rule)     rule = [seq, action, dir, src, dst, svc]       *)
 (* grp  : group id -> set of addresses       svc : service id -> definition                 *)
+(* xid  : group id -> id of the (single) IP address expression of the group                 *)
 (* src/dst are "ANY", a literal address or "g:<group id>"; svc is "ANY" or "s:<service id>" *)
 EXTENDS Integers, Sequences, FiniteSets, TLC
 
-VARIABLES pol, grp, svc, err
-dvars == <<pol, grp, svc, err>>
+VARIABLES pol, grp, svc, xid, err
+dvars == <<pol, grp, svc, xid, err>>
 Latch(g) == IF err = "" THEN g ELSE err
 Drop(f, k) == [x \in (DOMAIN f) \ {k} |-> f[x]]
 Put(f, k, v) == [x \in (DOMAIN f) \cup {k} |-> IF x = k THEN v ELSE f[x]]
@@ -22,50 +23,55 @@ Dangling(r) ==
 GrpUsed(g) == \E r \in AllRules : GrpRef(g) \in {r.src, r.dst}
 SvcUsed(s) == \E r \in AllRules : r.svc = SvcRef(s)
 
-PutService(s, v) == svc' = Put(svc, s, v) /\ UNCHANGED <<pol, grp, err>>
+PutService(s, v) == svc' = Put(svc, s, v) /\ UNCHANGED <<pol, grp, xid, err>>
 PatchServiceG(s) == IF s \notin DOMAIN svc THEN "PATCH of a service that does not exist" ELSE ""
 PatchService(s, v) == LET g == PatchServiceG(s) IN
-  err' = Latch(g) /\ svc' = (IF g = "" THEN Put(svc, s, v) ELSE svc) /\ UNCHANGED <<pol, grp>>
+  err' = Latch(g) /\ svc' = (IF g = "" THEN Put(svc, s, v) ELSE svc) /\ UNCHANGED <<pol, grp, xid>>
 DeleteServiceG(s) == CASE s \notin DOMAIN svc -> "DELETE of a service that does not exist"
                        [] SvcUsed(s) -> "referenced service deleted" [] OTHER -> ""
 DeleteService(s) == LET g == DeleteServiceG(s) IN
-  err' = Latch(g) /\ svc' = (IF g = "" THEN Drop(svc, s) ELSE svc) /\ UNCHANGED <<pol, grp>>
+  err' = Latch(g) /\ svc' = (IF g = "" THEN Drop(svc, s) ELSE svc) /\ UNCHANGED <<pol, grp, xid>>
 
-PutGroup(n, ms) == grp' = Put(grp, n, ms) /\ UNCHANGED <<pol, svc, err>>
-GroupAddG(n, ms) == IF n \notin DOMAIN grp THEN "POST add to a group that does not exist" ELSE ""
-GroupAdd(n, ms) == LET g == GroupAddG(n, ms) IN
-  err' = Latch(g) /\ grp' = (IF g = "" THEN [grp EXCEPT ![n] = @ \cup ms] ELSE grp) /\ UNCHANGED <<pol, svc>>
-GroupRemoveG(n, ms) == CASE n \notin DOMAIN grp -> "POST remove from a group that does not exist"
-                         [] ~(ms \subseteq grp[n]) -> "address to be removed is not in the group"
-                         [] OTHER -> ""
-GroupRemove(n, ms) == LET g == GroupRemoveG(n, ms) IN
-  err' = Latch(g) /\ grp' = (IF g = "" THEN [grp EXCEPT ![n] = @ \ ms] ELSE grp) /\ UNCHANGED <<pol, svc>>
-PatchExprG(n) == IF n \notin DOMAIN grp THEN "PATCH of the expression of a group that does not exist" ELSE ""
-PatchExpr(n, ms) == LET g == PatchExprG(n) IN
-  err' = Latch(g) /\ grp' = (IF g = "" THEN [grp EXCEPT ![n] = ms] ELSE grp) /\ UNCHANGED <<pol, svc>>
+PutGroup(n, ms, x) == grp' = Put(grp, n, ms) /\ xid' = Put(xid, n, x) /\ UNCHANGED <<pol, svc, err>>
+\* requests on the address list name the expression in their URL: it must be the group's own
+NoExpr == "request addresses an IP address expression the group does not have"
+GroupAddG(n, ms, x) == CASE n \notin DOMAIN grp -> "POST add to a group that does not exist"
+                         [] xid[n] # x -> NoExpr [] OTHER -> ""
+GroupAdd(n, ms, x) == LET g == GroupAddG(n, ms, x) IN
+  err' = Latch(g) /\ grp' = (IF g = "" THEN [grp EXCEPT ![n] = @ \cup ms] ELSE grp) /\ UNCHANGED <<pol, svc, xid>>
+GroupRemoveG(n, ms, x) == CASE n \notin DOMAIN grp -> "POST remove from a group that does not exist"
+                            [] xid[n] # x -> NoExpr
+                            [] ~(ms \subseteq grp[n]) -> "address to be removed is not in the group"
+                            [] OTHER -> ""
+GroupRemove(n, ms, x) == LET g == GroupRemoveG(n, ms, x) IN
+  err' = Latch(g) /\ grp' = (IF g = "" THEN [grp EXCEPT ![n] = @ \ ms] ELSE grp) /\ UNCHANGED <<pol, svc, xid>>
+PatchExprG(n, x) == CASE n \notin DOMAIN grp -> "PATCH of the expression of a group that does not exist"
+                      [] xid[n] # x -> NoExpr [] OTHER -> ""
+PatchExpr(n, ms, x) == LET g == PatchExprG(n, x) IN
+  err' = Latch(g) /\ grp' = (IF g = "" THEN [grp EXCEPT ![n] = ms] ELSE grp) /\ UNCHANGED <<pol, svc, xid>>
 DeleteGroupG(n) == CASE n \notin DOMAIN grp -> "DELETE of a group that does not exist"
                      [] GrpUsed(n) -> "referenced group deleted" [] OTHER -> ""
 DeleteGroup(n) == LET g == DeleteGroupG(n) IN
-  err' = Latch(g) /\ grp' = (IF g = "" THEN Drop(grp, n) ELSE grp) /\ UNCHANGED <<pol, svc>>
+  err' = Latch(g) /\ grp' = (IF g = "" THEN Drop(grp, n) ELSE grp) /\ xid' = (IF g = "" THEN Drop(xid, n) ELSE xid) /\ UNCHANGED <<pol, svc>>
 
 PutPolicyG(p, rs) == IF \E i \in DOMAIN rs : Dangling(rs[i]) THEN "rule references unknown group or service" ELSE ""
 PutPolicy(p, rs) == LET g == PutPolicyG(p, rs) IN
-  err' = Latch(g) /\ pol' = (IF g = "" THEN Put(pol, p, rs) ELSE pol) /\ UNCHANGED <<grp, svc>>
+  err' = Latch(g) /\ pol' = (IF g = "" THEN Put(pol, p, rs) ELSE pol) /\ UNCHANGED <<grp, svc, xid>>
 DeletePolicyG(p) == IF p \notin DOMAIN pol THEN "DELETE of a policy that does not exist" ELSE ""
 DeletePolicy(p) == LET g == DeletePolicyG(p) IN
-  err' = Latch(g) /\ pol' = (IF g = "" THEN Drop(pol, p) ELSE pol) /\ UNCHANGED <<grp, svc>>
+  err' = Latch(g) /\ pol' = (IF g = "" THEN Drop(pol, p) ELSE pol) /\ UNCHANGED <<grp, svc, xid>>
 PutRuleG(p, i, r) == CASE p \notin DOMAIN pol -> "PUT of a rule into a policy that does not exist"
                        [] i \in DOMAIN pol[p] -> "PUT of a rule whose id already exists"
                        [] Dangling(r) -> "rule references unknown group or service" [] OTHER -> ""
 PutRule(p, i, r) == LET g == PutRuleG(p, i, r) IN
-  err' = Latch(g) /\ pol' = (IF g = "" THEN [pol EXCEPT ![p] = Put(@, i, r)] ELSE pol) /\ UNCHANGED <<grp, svc>>
+  err' = Latch(g) /\ pol' = (IF g = "" THEN [pol EXCEPT ![p] = Put(@, i, r)] ELSE pol) /\ UNCHANGED <<grp, svc, xid>>
 PatchRuleG(p, i, r) == CASE p \notin DOMAIN pol \/ i \notin DOMAIN pol[p] -> "PATCH of a rule that does not exist"
                          [] Dangling(r) -> "rule references unknown group or service" [] OTHER -> ""
 PatchRule(p, i, r) == LET g == PatchRuleG(p, i, r) IN
-  err' = Latch(g) /\ pol' = (IF g = "" THEN [pol EXCEPT ![p] = Put(@, i, r)] ELSE pol) /\ UNCHANGED <<grp, svc>>
+  err' = Latch(g) /\ pol' = (IF g = "" THEN [pol EXCEPT ![p] = Put(@, i, r)] ELSE pol) /\ UNCHANGED <<grp, svc, xid>>
 DeleteRuleG(p, i) == IF p \notin DOMAIN pol \/ i \notin DOMAIN pol[p] THEN "DELETE of a rule that does not exist" ELSE ""
 DeleteRule(p, i) == LET g == DeleteRuleG(p, i) IN
-  err' = Latch(g) /\ pol' = (IF g = "" THEN [pol EXCEPT ![p] = Drop(@, i)] ELSE pol) /\ UNCHANGED <<grp, svc>>
+  err' = Latch(g) /\ pol' = (IF g = "" THEN [pol EXCEPT ![p] = Drop(@, i)] ELSE pol) /\ UNCHANGED <<grp, svc, xid>>
 
 Resume == UNCHANGED dvars
 =============================================================================
